@@ -141,6 +141,8 @@ def exhaustive_cases(thorough):
     strs = ["".join(t) for n in range(0, m2 + 1) for t in itertools.product(ALPH, repeat=n)]
     for a in strs:
         for b in strs:
+            if len(a) + len(b) > 3:
+                continue
             for qa in (0, 1):
                 for qb in (0, 1):
                     for ba in itertools.product("01", repeat=len(a)):
@@ -166,6 +168,32 @@ def exhaustive_cases(thorough):
                                         out.append(case([mk_item(l, o, c, args, lead, trail, lg, el, er, ach, cm, eol)]))
                                     out.append(case([], mk_item(l, o, c, args, lead, trail, lg, el, er, ach, cm)))
     return out
+
+
+def replay(ck, data):
+    """bin/vcheck C01 --replay file: render the case again with the extracted renderer, parse the
+    text with the implementation, compare with the rendered instructions"""
+    print(json.dumps({k: v for k, v in data.items() if k != "coq_log_tail"}, indent=1, ensure_ascii=False)[:3000])
+    wire = data.get("wire")
+    if wire is None:
+        print("replay: this file names a broken obligation, not an input; re-run the check itself")
+        return 1
+    ck.ocaml_build()
+    ck.harness_build(["c01"])
+    f = ck.model([wire])[0].split("\t")
+    if len(f) != 4:
+        print("replay: the driver does not understand the case: " + "\t".join(f)[:200])
+        return 1
+    flag, text, expected, model = f
+    i = ck.impl(["P\t" + text])[0]
+    print("in domain (wf && valid): " + flag)
+    print("text:           " + repr(dec_str(text)))
+    print("expected:       " + expected)
+    print("model:          " + model)
+    print("implementation: " + i)
+    same = i == expected and model == expected
+    print("REPLAY: " + ("agree now" if same else "still disagree"))
+    return 0 if same else 1
 
 
 def run(ck):
@@ -205,7 +233,7 @@ def run(ck):
             pass
     exh = exhaustive_cases(thorough)
     cases += [(c, "exhaustive") for c in exh]
-    n_rand = 120000 if thorough else 20000
+    n_rand = 300000 if thorough else 20000
     for _ in range(n_rand):
         cases.append((case([g_item(rng)]), "random-line"))
     for _ in range(n_rand // 40):
@@ -272,7 +300,7 @@ def run(ck):
                 "extracted wf && valid = true are evaluated (= the domain of C01_line / C01_script); the implementation's parse_text "
                 "result must equal the rendered instructions numbered from 1. Exhaustive: every argument string of length <= 3 over "
                 "%r as single argument, quoted and unquoted, with every per-character escape choice, for %d shapes; every pair of "
-                "arguments of length <= %d with every quoting/escaping choice; all 8 shapes x name sets x 5 comments x 25 lead/trail "
+                "arguments of length <= %d (total length <= 3) with every quoting/escaping choice; all 8 shapes x name sets x 5 comments x 25 lead/trail "
                 "white-space pairs x 4 spacing choices x 4 argument sets x LF/CRLF/unterminated. Random: names over a wide pool incl. "
                 "non-BMP, arguments of <= 40 arbitrary scalar values, <= 6 arguments, scripts of 1..%d lines with mixed LF/CRLF. "
                 "Non-trivial = distinct in-domain text with at least one Script instruction"
